@@ -243,3 +243,26 @@ Theorem C15_rich_cache_old_refuted :
     show true fmt32 (mkfb 12 9 (repeat (repeat 0 12) 9)) (use_shared false (Some (bpp fmt8)) fmt32 c1) 5 4 [] = None /\
     exists res, show true fmt32 (mkfb 12 9 (repeat (repeat 0 12) 9)) (use_shared true (Some (bpp fmt8)) fmt32 c1) 5 4 [] = Some res.
 Proof. exact rich_cache_old_refuted. Qed.
+
+(* ---------------------------------------------------------------- the cached rich form and the server format *)
+(* CacheOK fmt c: the rich form the library derived from an X-style cursor is what
+   rfbMakeRichCursorFromXCursor gives for the CURRENT serverFormat.  Kept by deriving it
+   (rfbShowCursor / rfbSendCursorShape), by rfbNewFramebuffer (any change of serverFormat - pixel size,
+   maxima or shifts - drops it) and by handing the built-in cursor to another screen. *)
+Theorem C15_rich_cache_valid_derive : forall fmt c c' r,
+  CacheOK fmt c -> ensure_rich fmt c = Some (c', r) -> CacheOK fmt c'.
+Proof. exact cache_ok_ensure_rich. Qed.
+
+Theorem C15_rich_cache_valid_new_framebuffer : forall fold fnew c c',
+  CacheOK fold c -> newfb_cursor fold fnew (Some c) = Some c' -> CacheOK fnew c'.
+Proof. exact cache_ok_newfb. Qed.
+
+Theorem C15_rich_cache_valid_other_screen : forall tag fmt c, tag <> None -> CacheOK fmt (use_shared true tag fmt c).
+Proof. exact cache_ok_use_shared. Qed.
+
+Theorem C15_inv_new_framebuffer : forall fixed fold fnew s cls f,
+  wf_fb f -> same_shape f (sfb s) ->
+  Forall (Inv fixed fold s) cls ->
+  Forall (Inv fixed fnew (fst (new_framebuffer fold fnew s cls f))) (snd (new_framebuffer fold fnew s cls f)).
+Proof. exact inv_new_framebuffer. Qed.
+
